@@ -351,7 +351,10 @@ class ExcelModel:
             except Exception as ex:  # Missing excel file or sheet.
                 log.warning('Error in loading `{}`:\n{}'.format(n_id, ex))
                 Cell(n_id, '=#REF!').compile().add(self.dsp)
-                self.books.pop(book, None)
+                # Forget a workbook that could not be opened, not one whose
+                # sheet is missing (its names and other sheets are in use).
+                for k in [k for k, d in self.books.items() if BOOK not in d]:
+                    del self.books[k]
                 continue
             formula_references = self.formula_references(context)
             if rng.get('anchor'):
